@@ -483,16 +483,20 @@ class Ctx:
         return 1 if nviol else 0
 
 
-def ddmin(items, failing, max_tests=400):
-    """delta debugging: smallest sublist of items for which failing(sub) is still True"""
+def ddmin(items, failing, max_tests=400, budget_s=60.0):
+    """delta debugging: smallest sublist of items for which failing(sub) is still True
+    (stops after max_tests predicate calls or budget_s seconds, returning the smallest list found so far)"""
     n = 2
     tests = 0
     items = list(items)
-    while len(items) >= 2 and tests < max_tests:
+    t_end = time.time() + budget_s
+    while len(items) >= 2 and tests < max_tests and time.time() < t_end:
         chunk = max(1, len(items) // n)
         subsets = [items[i:i + chunk] for i in range(0, len(items), chunk)]
         reduced = False
         for i in range(len(subsets)):
+            if time.time() > t_end:
+                break
             comp = [x for j, s in enumerate(subsets) if j != i for x in s]
             tests += 1
             if comp and failing(comp):
